@@ -140,6 +140,8 @@ def storage():
     out.append(_t("struct S { int i; float f; }\nexport function f(int a, float b) -> float { S s; s.i = a; s.f = b; return s.f * 2.0 + s.i; }", "struct rw", ["struct"]))
     out.append(_t("struct S { int i; int j; }\nexport function f(int a, int b) -> int { S s; S t; s.i = a; t.i = b; s.j = t.i + 1; t.j = s.i; return s.i + s.j * 3 + t.i * 5 + t.j * 7; }", "two structs", ["struct"]))
     out.append(_t("struct S { int i; int j; }\nexport function f(int n, int a) -> int { int r = 0; for (int k = 0; k < n; ++k) { S s; s.i += a; s.j += s.i + k; r += s.j; } return r; }", "struct reinit in loop", ["struct", "loop", "decl"], NB))
+    out.append(_t("struct In { int x; int[2] a; }\nstruct Out { In inner; int[3] arr; }\nexport function f(int n, int a) -> int { int r = 0; for (int k = 0; k < n; ++k) { Out s; s.arr[k] = s.arr[k] + a; s.inner.x = s.inner.x + 1; s.inner.a[1] = s.inner.a[1] + 2; r = r * 10 + s.arr[0] + s.arr[1] + s.arr[2] + s.inner.x + s.inner.a[1]; } return r; }",
+                  "nested struct reinit in loop", ["struct", "loop", "decl", "array"], {"n": (0, 3), "a": (-3, 3)}))
     out.append(_t("int g; float h;\nexport function f(int a, float b) -> float { g = g + a; h = h * b; return g + h; }", "globals rw", ["global"], small=True))
     out.append(_t("int g;\nexport function f(int a) -> int { if (a > g) { g = a; return 1; } return 0; }", "global cond write", ["global"]))
     out.append(_t("int[3] g;\nexport function f(int i, int v) -> int { g[i] = g[i] + v; return g[0] + g[1] * 2 + g[2] * 4; }", "global array", ["global", "array"], {"i": (0, 2)}))
